@@ -127,6 +127,7 @@ func VerifExtract() {
 	// every emitted package is well-formed and convertible (C14's clause for these extractors)
 	for _, p := range inv.Packages {
 		verifrt.Assert(len(p.Locations) > 0, "an emitted package has at least one location")
+		verifrt.Assert(p.Name != "", "an emitted package has a non-empty name")
 		p.Extractor = e
 		if u := e.ToPURL(p); u != nil {
 			verifrt.Assert(u.Type != "", "an emitted package's PURL has a type")
@@ -166,6 +167,7 @@ func VerifMutate() {
 	verifrt.ObserveInt("packages", len(inv.Packages))
 	for _, p := range inv.Packages {
 		verifrt.Assert(len(p.Locations) > 0, "an emitted package has at least one location")
+		verifrt.Assert(p.Name != "", "an emitted package has a non-empty name")
 		p.Extractor = e
 		if u := e.ToPURL(p); u != nil {
 			verifrt.Assert(u.Type != "", "an emitted package's PURL has a type")
@@ -210,6 +212,7 @@ func VerifOSRelease() {
 	verifrt.ObserveInt("packages", len(inv.Packages))
 	for _, p := range inv.Packages {
 		verifrt.Assert(len(p.Locations) > 0, "an emitted package has at least one location")
+		verifrt.Assert(p.Name != "", "an emitted package has a non-empty name")
 		p.Extractor = e
 		if u := e.ToPURL(p); u != nil {
 			verifrt.Assert(u.Type != "", "an emitted package's PURL has a type")
@@ -259,6 +262,7 @@ func VerifPath() {
 	verifrt.ObserveInt("packages", len(inv.Packages))
 	for _, p := range inv.Packages {
 		verifrt.Assert(len(p.Locations) > 0, "an emitted package has at least one location")
+		verifrt.Assert(p.Name != "", "an emitted package has a non-empty name")
 		p.Extractor = e
 		if u := e.ToPURL(p); u != nil {
 			verifrt.Assert(u.Type != "", "an emitted package's PURL has a type")
